@@ -48,6 +48,15 @@ void h_u_array_helpers_b(void)
         VF_COVER(AH_N == 0 || (r != NULL && which + 1 == AH_N));
         VF_COVER(r == NULL);
     }
+#elif AH_OP == 2
+    {   /* lookup by index, every size_t index (not only small ones: an index is decoded from up to 20 digits) */
+        size_t any = nondet_size_t(); cJSON *r = utils_get_array_item(arr, any);
+        __CPROVER_assert(r == (any < AH_N ? nd[any < AH_N ? any : 0] : NULL), "C15 C16 element lookup: the element at the index, nothing for any index at or beyond the length (every 64-bit index)");
+        for (i = 0; i < AH_N; i++) want[i] = nd[i];
+        __CPROVER_assert(chain_is(arr, want, AH_N), "C15 lookup does not modify the array");
+        VF_COVER(AH_N == 0 || r != NULL);
+        VF_COVER(r == NULL && any > 4294967296ul);
+    }
 #else
     {
         cJSON *x = mk(); cJSON_bool r = insert_item_in_array(arr, which, x);
